@@ -49,17 +49,103 @@ Section MruBridge.
                    | H : (_ <=? _) = false |- _ => apply Nat.leb_gt in H
                    end; first [ exfalso; lia | f_equal; lia | lia ] ].
   Ltac crush := repeat (proj; inner; clean); proj; simpl; try congruence; auto; try arith.
+  (* every comparison of naturals in the goal that the Prop facts of the context decide is replaced by its value,
+     whatever its spelling (see below, "tactics that do not look at the SHAPE of the generated code") *)
+  Ltac cmp_norm :=
+    repeat match goal with
+           | |- context [?a <=? ?b] => first [ rewrite (proj2 (Nat.leb_le a b)) by lia | rewrite (proj2 (Nat.leb_gt a b)) by lia ]
+           | |- context [?a <? ?b] => first [ rewrite (proj2 (Nat.ltb_lt a b)) by lia | rewrite (proj2 (Nat.ltb_ge a b)) by lia ]
+           | |- context [?a =? ?b] => first [ rewrite (proj2 (Nat.eqb_eq a b)) by lia | rewrite (proj2 (Nat.eqb_neq a b)) by lia ]
+           end; cbn [negb andb orb].
 
   Lemma g_do_access_ok (s : lrul K V) (i : nat) :
     req (g_do_access s i) (do e <- vget "m_elements[element_idx]" (ll_elems s) i; ll_access true s e).
   Proof. unfold g_do_access, ll_access, vget, bind, set_ll_list. crush. Qed.
 
-  Lemma g_do_erase_ok (s : lrul K V) (i : nat) : req (g_do_erase s i) (ll_do_erase s i).
-  Proof. unfold g_do_erase, ll_do_erase, vref, vget, bind. crush. Qed.
-
   (* use of an already bridged callee: its lemma goes in front of the goal, the case analysis does the rest *)
   Ltac callee L := let P := fresh "P" in pose proof L as P; unfold req in P; revert P.
   Ltac finish := intros; clean; subst; try contradiction; try congruence; auto; try arith.
+
+  (* ---- what the source may rely on without saying so: the states a history of public calls reaches.
+     [Inv] is what holds of every state the literal machine reaches (LruLitFacts.v: it represents a state of the
+     mid-level model that satisfies that model's invariant); [can_erase] is the part of it do_erase needs: the nodes of
+     the list are distinct and std::prev(m_mru_end) exists (some slot is in use).  A rewriting of do_erase that is
+     the same function only on such states (e.g. dropping the guard around the splice of the slot to the tail of the
+     in-use section: there, and only there, `splice(pos, l, prev(pos))` does nothing) is then still proved equal. ---- *)
+  Definition Inv (l : lrul K V) : Prop := exists t m, lc_inv t m /\ ll_rep true l m.
+  Definition can_erase (s : lrul K V) : Prop :=
+    NoDup (ll_list s) /\ exists m, l_prev (ll_list s) (ll_end s) = Ok (It m).
+
+  Lemma Inv_init cap : 1 <= cap -> Inv (lrul_init cap).
+  Proof. intros Hc. exists 0%Z, (lc_init cap). split; [apply lc_inv_init; auto|apply ll_rep_init; auto]. Qed.
+  Lemma Inv_ins l k v a l' b : Inv l -> ll_ins true l k v a = Ok (l', b) -> Inv l'.
+  Proof.
+    intros (t & m & I & R) E. destruct (lc_ins (polof true) m k v a) as [m1 b1] eqn:M.
+    destruct (ll_ins_refines true t l m k v a m1 b1 I R M) as (l1 & D & R1 & I1 & _).
+    rewrite D in E. inversion E; subst. exists t, m1. split; assumption.
+  Qed.
+  Lemma Inv_erase l k l' b : Inv l -> ll_erase l k = Ok (l', b) -> Inv l'.
+  Proof.
+    intros (t & m & I & R) E. destruct (lc_erase m k) as [m1 b1] eqn:M.
+    destruct (ll_erase_refines true t l m k m1 b1 I R M) as (l1 & D & R1 & I1 & _).
+    rewrite D in E. inversion E; subst. exists t, m1. split; assumption.
+  Qed.
+  Lemma Inv_step l o now rnd l' y : Inv l -> ll_step true l o now rnd = Ok (l', y) -> Inv l'.
+  Proof.
+    intros (t & m & I & R) E. destruct (ll_step_refines true t l m o now rnd I R) as (l1 & D & R1 & I1).
+    rewrite D in E. inversion E; subst. exists now, (fst (lc_step (pol true) m o now rnd)). split; assumption.
+  Qed.
+
+  (* some slot is in use (the size is not 0, or the index has an entry): the in-use section of the list has a last node *)
+  Lemma Inv_can_erase l : Inv l -> (0 < ll_used l \/ exists k n, assoc k (ll_index l) = Some n) -> can_erase l.
+  Proof.
+    intros (t & m & _ & R) U. destruct (rep2_elim _ _ _ R) as (used & free & R2).
+    destruct R2 as (Hl & He & _ & _ & Hnd & _ & _ & Hu & _ & _ & _ & _ & HB).
+    assert (N : used <> []).
+    { destruct U as [U|(k & n & A)]; intros ->; [simpl in Hu; lia|exact (HB k n A)]. }
+    destruct (exists_last N) as (u & x & ->). rewrite <- app_assoc in Hl, Hnd. simpl in Hl, Hnd.
+    split; rewrite Hl, ?He; [exact Hnd|]. exists x. apply l_prev_app. exact Hnd.
+  Qed.
+
+  (* std::list::splice(pos, l, i) with pos == ++i leaves the list as it is: so does the formal list (its iterators are
+     the node values, hence the nodes must be distinct) *)
+  Lemma splice_after_itself l pos m : NoDup l -> l_prev l pos = Ok (It m) -> l_splice l pos (It m) = Ok l.
+  Proof.
+    intros ND P.
+    assert (Hv : valid_it l pos = true) by (unfold l_prev in P; destruct (valid_it l pos); [reflexivity|discriminate]).
+    destruct (valid_decomp _ _ Hv) as (free & E1 & E2). remember (used_part l pos) as used eqn:Eu. clear Eu.
+    subst l pos. destruct used as [|h used'] using rev_ind.
+    - exfalso. simpl app in *. unfold l_prev in P. rewrite Hv, iter_eqb_refl in P. discriminate.
+    - clear IHused'. assert (E : (used' ++ [h]) ++ free = used' ++ h :: free) by (rewrite <- app_assoc; reflexivity).
+      rewrite E in P, ND. rewrite l_prev_app in P by exact ND. inversion P; subst h.
+      rewrite l_splice_end.
+      + rewrite remove_nat_last; [rewrite E; reflexivity|]. apply NoDup_remove_2 in ND. intros I. apply ND. apply in_or_app; auto.
+      + rewrite E. exact ND.
+      + apply in_or_app. right. left. reflexivity.
+  Qed.
+
+  (* do_erase: first the FACTS (the cell, its list iterator, prev(m_mru_end), whether the slot is that last node in
+     use); the generated code — guarded splice or not, index or cell as the parameter — then reduces on both sides *)
+  Lemma g_do_erase_ok (s : lrul K V) (i : nat) : can_erase s -> req (g_do_erase s i) (ll_do_erase s i).
+  Proof.
+    intros [ND [m PE]]. pose proof (splice_after_itself _ _ _ ND PE) as SN.
+    unfold g_do_erase, ll_do_erase, get_pos, vref, vget.
+    destruct (nth_error (ll_elems s) i) as [e0|] eqn:N.
+    2:{ rewrite ?N. simpl. auto. }
+    repeat progress (rewrite ?N, ?PE; cbn [bind]; proj).
+    destruct (le_pos e0) as [p|] eqn:P0; cbn [bind]; [|simpl; auto].
+    destruct (iter_eqb p (It m)) eqn:Q; [apply iter_eqb_true in Q; subst p|].
+    - repeat progress (rewrite ?N, ?P0, ?PE, ?SN, ?iter_eqb_refl; cbn [bind negb]; proj). unfold bind. crush.
+    - repeat progress (rewrite ?N, ?P0, ?PE, ?Q; cbn [bind negb]; proj). unfold bind. crush.
+  Qed.
+  Lemma ll_do_erase_no_cell (s : lrul K V) i : nth_error (ll_elems s) i = None -> exists w, ll_do_erase s i = UB w.
+  Proof. intros N. unfold ll_do_erase, vget. rewrite N. eexists. reflexivity. Qed.
+  (* a call of do_erase for the cell idx, by index or by reference (m_elements[idx], bounds-checked at the call) *)
+  Ltac call_erase s idx C :=
+    let N := fresh "N" in let e := fresh "e" in let w := fresh "w" in
+    callee (g_do_erase_ok s idx C);
+    destruct (nth_error (ll_elems s) idx) as [e|] eqn:N; unfold vref; rewrite ?N; cbn [bind];
+    [ | destruct (ll_do_erase_no_cell s idx N) as [w ->] ].
 
   (* list.back() is *std::prev(list.end()) (and `auto it = end(); --it; *it`): whichever of the two spellings the source
      uses, one first case-splits on the FACT l_back l = Ok b / UB and rewrites the iterator spelling, if present, with it *)
@@ -85,12 +171,15 @@ Section MruBridge.
   Lemma l_back_UB_prev_end l w : l_back l = UB w -> exists w', l_prev l End = UB w'.
   Proof. destruct l; [|discriminate]. intros _. eexists. reflexivity. Qed.
 
-  Lemma g_do_prune_ok (s : lrul K V) : req (g_do_prune s) (ll_do_prune s).
+  Lemma g_do_prune_ok (s : lrul K V) : Inv s -> req (g_do_prune s) (ll_do_prune s).
   Proof.
-    unfold g_do_prune, ll_do_prune.
+    intros IS. unfold g_do_prune, ll_do_prune.
+    (* the FACT 0 < m_used_size, then its spellings (> 0, != 0, an early return on == 0) reduce *)
+    destruct (Nat.lt_ge_cases 0 (ll_used s)) as [U|U]; cmp_norm; [|simpl; auto].
+    pose proof (Inv_can_erase s IS (or_introl U)) as C.
     destruct (l_back (ll_list s)) as [b|w] eqn:B.
     - destruct (l_back_is_deref_prev_end _ _ B) as [B1 B2]. rewrite ?B1; cbn [bind]; rewrite ?B2; cbn [bind].
-      callee (g_do_erase_ok s b). unfold bind. crush; finish.
+      call_erase s b C; unfold bind; crush; finish.
     - destruct (l_back_UB_prev_end _ _ B) as [w' B1]. rewrite ?B1; cbn [bind]. unfold bind. crush; finish.
   Qed.
 
@@ -131,12 +220,7 @@ Section MruBridge.
      cmp_norm: every comparison of naturals in the goal that the Prop facts of the context decide is replaced by its
      value, whatever its spelling (a <=? b, negb (b <? a), b >= a written with the operands swapped, ...);
      one first case-splits on the fact (Nat.le_gt_cases ...), never on a boolean expression of the generated code. *)
-  Ltac cmp_norm :=
-    repeat match goal with
-           | |- context [?a <=? ?b] => first [ rewrite (proj2 (Nat.leb_le a b)) by lia | rewrite (proj2 (Nat.leb_gt a b)) by lia ]
-           | |- context [?a <? ?b] => first [ rewrite (proj2 (Nat.ltb_lt a b)) by lia | rewrite (proj2 (Nat.ltb_ge a b)) by lia ]
-           | |- context [?a =? ?b] => first [ rewrite (proj2 (Nat.eqb_eq a b)) by lia | rewrite (proj2 (Nat.eqb_neq a b)) by lia ]
-           end; cbn [negb andb orb].
+  (* (Ltac cmp_norm is defined at the top of the section) *)
   (* the cell idx of the vector exists (N : nth_error l idx = Some e0, L : idx < length l): every bounds-checked access to
      that cell, in either program and wherever it stands, is replaced by its value *)
   Ltac vec N L :=
@@ -160,13 +244,13 @@ Section MruBridge.
       rewrite vget_upd in P by exact L; cbn [bind] in P; revert P end.
 
   Lemma g_do_insert_ok (s : lrul K V) k v :
-    assoc k (ll_index s) = None -> req (g_do_insert s k v) (ll_do_insert true s k v).
+    Inv s -> assoc k (ll_index s) = None -> req (g_do_insert s k v) (ll_do_insert true s k v).
   Proof.
-    intros A. unfold g_do_insert, ll_do_insert.
+    intros IS A. unfold g_do_insert, ll_do_insert.
     (* the prune step: split on the FACT size() <= m_used_size, then the generated condition reduces in any spelling *)
     match goal with |- req (bind ?x _) (bind ?y _) => assert (R0 : req x y) end.
     { destruct (Nat.le_gt_cases (List.length (ll_elems s)) (ll_used s)); cmp_norm; [|simpl; auto].
-      callee (g_do_prune_ok s). unfold bind. crush; finish. }
+      callee (g_do_prune_ok s IS). unfold bind. crush; finish. }
     apply req_bind; [exact R0|]. intros s1 E1. rewrite E1 in R0. apply req_sym, req_ok in R0.
     assert (A1 : assoc k (ll_index s1) = None).
     { destruct (List.length (ll_elems s) <=? ll_used s); [|inversion R0; subst; auto].
@@ -197,12 +281,12 @@ Section MruBridge.
      `end() != it`, an early return on the miss ... all reduce by computation *)
   Ltac lookup A := unfold mit_find, mit_second, mit_deref; cbn [mit_eqb negb bind]; rewrite ?A; cbn [mit_eqb negb bind].
 
-  Lemma g_do_insert_update_ok (s : lrul K V) k v a : req (g_do_insert_update s k v a) (ll_ins true s k v a).
+  Lemma g_do_insert_update_ok (s : lrul K V) k v a : Inv s -> req (g_do_insert_update s k v a) (ll_ins true s k v a).
   Proof.
-    unfold g_do_insert_update, ll_ins.
+    intros IS. unfold g_do_insert_update, ll_ins.
     destruct (assoc k (ll_index s)) as [idx|] eqn:A; lookup A.
     - callee (g_do_update_ok s k idx v A). destruct (a_upd a); cbn [negb]; unfold bind; crush; finish.
-    - callee (g_do_insert_ok s k v A). destruct (a_ins a); cbn [negb]; unfold bind; crush; finish.
+    - callee (g_do_insert_ok s k v IS A). destruct (a_ins a); cbn [negb]; unfold bind; crush; finish.
   Qed.
 
   Lemma ll_access_elems (s s' : lrul K V) e : ll_access true s e = Ok s' -> ll_elems s' = ll_elems s.
@@ -223,41 +307,44 @@ Section MruBridge.
       subst s2. apply ll_access_elems in Q. unfold vget. rewrite Q, N. auto.
   Qed.
 
-  Lemma g_erase_ok (s : lrul K V) k : req (g_erase s k) (ll_erase s k).
+  Lemma g_erase_ok (s : lrul K V) k : Inv s -> req (g_erase s k) (ll_erase s k).
   Proof.
-    unfold g_erase, ll_erase.
+    intros IS. unfold g_erase, ll_erase.
     destruct (assoc k (ll_index s)) as [idx|] eqn:A; lookup A; [|simpl; auto].
-    callee (g_do_erase_ok s idx). unfold bind. crush; finish.
+    pose proof (Inv_can_erase s IS (or_intror (ex_intro _ k (ex_intro _ idx A)))) as C.
+    call_erase s idx C; unfold bind; crush; finish.
   Qed.
 
   (* ---- the range calls: the generated range-for loops against the literal recursions ---- *)
   Definition strip (l : list (Z * K * V)) : list (K * V) := map (fun x => (snd (fst x), snd x)) l.
 
-  Lemma g_insert_range_ok (s : lrul K V) l a : req (g_insert_range s (strip l) a) (ll_ins_range true s l a 0).
+  Lemma g_insert_range_ok (s : lrul K V) l a : Inv s -> req (g_insert_range s (strip l) a) (ll_ins_range true s l a 0).
   Proof.
-    unfold g_insert_range.
+    intros IS. unfold g_insert_range.
     match goal with |- req (bind (foldM ?F _ _) _) _ =>
-      assert (G : forall l s n, req (foldM F (strip l) (s, n)) (ll_ins_range true s l a n)) end.
-    { clear. induction l as [|[[z k] v] r IH]; intros s n; simpl; auto.
-      callee (g_do_insert_update_ok s k v a). unfold bind at 1 2 3.
-      destruct (g_do_insert_update s k v a) as [[s1 b]|], (ll_ins true s k v a) as [[s2 b2]|]; intros P; try contradiction; auto.
-      inversion P; subst. destruct b2; cbn [bind]; rewrite ?Nat.add_1_r, ?Nat.add_0_r; apply IH. }
-    specialize (G l s 0). revert G.
+      assert (G : forall l s n, Inv s -> req (foldM F (strip l) (s, n)) (ll_ins_range true s l a n)) end.
+    { clear. induction l as [|[[z k] v] r IH]; intros s n IS; simpl; auto.
+      callee (g_do_insert_update_ok s k v a IS). unfold bind at 1 2 3.
+      destruct (g_do_insert_update s k v a) as [[s1 b]|], (ll_ins true s k v a) as [[s2 b2]|] eqn:L; intros P; try contradiction; auto.
+      inversion P; subst. pose proof (Inv_ins _ _ _ _ _ _ IS L) as IS2.
+      destruct b2; cbn [bind]; rewrite ?Nat.add_1_r, ?Nat.add_0_r; apply IH; exact IS2. }
+    specialize (G l s 0 IS). revert G.
     destruct (foldM _ _ _) as [[s' n']|]; cbn [bind]; auto.
   Qed.
 
-  Lemma g_erase_range_ok (s : lrul K V) l : req (g_erase_range s l) (ll_erase_range s l 0).
+  Lemma g_erase_range_ok (s : lrul K V) l : Inv s -> req (g_erase_range s l) (ll_erase_range s l 0).
   Proof.
-    unfold g_erase_range.
+    intros IS. unfold g_erase_range.
     match goal with |- req (bind (foldM ?F _ _) _) _ =>
-      assert (G : forall l s n, req (foldM F l (s, n)) (ll_erase_range s l n)) end.
-    { clear. induction l as [|k r IH]; intros s n; simpl; auto.
-      unfold ll_erase.
-      destruct (assoc k (ll_index s)) as [idx|] eqn:A; lookup A; [|apply IH].
-      callee (g_do_erase_ok s idx).
+      assert (G : forall l s n, Inv s -> req (foldM F l (s, n)) (ll_erase_range s l n)) end.
+    { clear. induction l as [|k r IH]; intros s n IS; simpl; auto.
+      pose proof (Inv_erase s k) as IE. revert IE. unfold ll_erase.
+      destruct (assoc k (ll_index s)) as [idx|] eqn:A; lookup A; intros IE; [|apply IH; exact IS].
+      pose proof (Inv_can_erase s IS (or_intror (ex_intro _ k (ex_intro _ idx A)))) as C.
+      call_erase s idx C;
       destruct (g_do_erase s idx) as [s1|], (ll_do_erase s idx) as [s2|]; simpl; intros P; try contradiction; auto.
-      subst. apply IH. }
-    specialize (G l s 0). revert G.
+      subst. apply IH. eapply IE; [exact IS|reflexivity]. }
+    specialize (G l s 0 IS). revert G.
     destruct (foldM _ _ _) as [[s' n']|]; cbn [bind]; auto.
   Qed.
 
@@ -325,13 +412,13 @@ Section MruBridge.
   Proof. induction l; simpl; congruence. Qed.
 
   Theorem g_step_ok (s : lrul K V) (e : ev K V) :
-    req (g_step s e) (ll_step true s (e_op e) (e_now e) (e_rnd e)).
+    Inv s -> req (g_step s e) (ll_step true s (e_op e) (e_now e) (e_rnd e)).
   Proof.
-    unfold g_step, ll_step. destruct (e_op e); try (simpl; auto; fail).
-    - unfold g_insert. callee (g_do_insert_update_ok s k v a). unfold bind. crush; finish.
-    - callee (g_insert_range_ok s l a). unfold bind. crush; finish.
-    - callee (g_erase_ok s k). unfold bind. crush; finish.
-    - callee (g_erase_range_ok s l). unfold bind. crush; finish.
+    intros IS. unfold g_step, ll_step. destruct (e_op e); try (simpl; auto; fail).
+    - unfold g_insert. callee (g_do_insert_update_ok s k v a IS). unfold bind. crush; finish.
+    - callee (g_insert_range_ok s l a IS). unfold bind. crush; finish.
+    - callee (g_erase_ok s k IS). unfold bind. crush; finish.
+    - callee (g_erase_range_ok s l IS). unfold bind. crush; finish.
     - unfold g_find. callee (g_do_find_ok s k peek). unfold bind. crush; finish.
     - callee (g_find_range_ok s l peek). unfold bind. crush; finish.
     - callee (g_find_range_fill_ok s (map (fun k => (k, None)) l) peek). rewrite map_fst_fill. unfold bind. crush; finish.
@@ -348,6 +435,19 @@ Section MruBridge.
   Lemma g_init_ok (cap : nat) : (g_init cap : lrul K V) = lrul_init cap.
   Proof. reflexivity. Qed.
 
+  (* the generated and the literal program run in step from a state of the invariant: the literal step keeps it *)
+  Lemma run_res_req_inv (f g : lrul K V -> ev K V -> res (lrul K V * ret K V)) (I : lrul K V -> Prop) :
+    (forall s e, I s -> req (f s e) (g s e)) ->
+    (forall s e s' y, I s -> g s e = Ok (s', y) -> I s') ->
+    forall h s, I s -> req (run_res f s h) (run_res g s h).
+  Proof.
+    intros Hfg Hp. induction h as [|e r IH]; intros s Is; simpl; [reflexivity|].
+    apply req_bind; [auto|]. intros [s1 y] E.
+    assert (Is1 : I s1).
+    { apply (Hp s e s1 y Is). apply req_ok. apply req_sym. rewrite <- E. auto. }
+    apply req_bind; [auto|]. intros [s2 ys] _. simpl. auto.
+  Qed.
+
   Theorem generated_mru_no_UB_on_any_history : forall cap (h : list (ev K V)),
       1 <= cap ->
       exists l', run_res g_step (g_init cap) h = Ok (l', snd (run (lc_step (pol true)) (lc_init cap) h)) /\
@@ -356,9 +456,9 @@ Section MruBridge.
     intros cap h Hc. rewrite g_init_ok.
     destruct (ll_no_UB_on_any_history true cap h Hc) as (l' & D & R).
     exists l'. split; auto.
-    pose proof (run_res_req g_step (fun l e => ll_step true l (e_op e) (e_now e) (e_rnd e)) (fun _ => True)
-                  (fun s e _ => g_step_ok s e) h (lrul_init cap)) as Q.
-    rewrite <- ll_run_is_run_res, D in Q. apply req_ok. apply Q. clear. induction h; constructor; auto.
+    pose proof (run_res_req_inv g_step (fun l e => ll_step true l (e_op e) (e_now e) (e_rnd e)) Inv
+                  g_step_ok (fun s e s' y Is E => Inv_step _ _ _ _ _ _ Is E) h (lrul_init cap) (Inv_init cap Hc)) as Q.
+    rewrite <- ll_run_is_run_res, D in Q. apply req_ok. apply Q.
   Qed.
 
   (* ---- C06 on the translated program: in every execution of the lock-level machine (Conc.v, Section Lin: invoke,
